@@ -94,6 +94,7 @@ class Profile:
     sqrt: bool = True
     real_ctx: bool = True
     division: bool = True
+    modpow: bool = True           # %, **, fp.fmod and their augmented forms
     comprehension: bool = True
     slices: bool = True
     rm_pool: list = field(default_factory=lambda: list(MODES))
@@ -224,8 +225,19 @@ class Gen:
         if k == 'lit':
             return self.lit()
         if k == 'bin':
-            ops = ['+', '-', '*'] + (['/'] if self.p.division else [])
+            ops = ['+', '-', '*'] * 8 + (['/'] * 6 if self.p.division else []) + (['%', '**', '**', 'fmod'] if self.p.modpow else [])
             op = ch.choice(ops)
+            if op == '**':
+                self.features.add('pow')
+                return f'({self.expr_R(fn, d - 1)} ** {ch.int(0, 3)})'
+            if op == 'fmod':
+                self.features.add('fmod')
+                return f'fp.fmod(fp.round({self.expr_R(fn, d - 1)}), fp.round({self.expr_R(fn, d - 1)}))'
+            if op == '%':
+                self.features.add('mod')
+                return f'(fp.round({self.expr_R(fn, d - 1)}) % fp.round({self.expr_R(fn, d - 1)}))'
+            if op == '%':
+                self.features.add('mod')
             return f'({self.expr_R(fn, d - 1)} {op} {self.expr_R(fn, d - 1)})'
         if k == 'neg':
             return f'(-{self.expr_R(fn, d - 1)})'
@@ -461,7 +473,11 @@ class Gen:
             if not vs:
                 return False
             v = ch.choice(vs)
-            out.append(f'{ind}{v} {ch.choice(["+=", "-=", "*="])} {self.expr_R(fn, ed - 1)}')
+            augs = ["+=", "-=", "*="] * 5 + (["/="] * 3 if p.division else []) + (["%=", "**="] if p.modpow else [])
+            ao = ch.choice(augs)
+            rhs = str(ch.int(0, 3)) if ao == '**=' else self.expr_R(fn, ed - 1)
+            out.append(f'{ind}{v} {ao} {rhs}')
+            self.features.add('aug:' + ao)
         elif k == 'assignB':
             v, new = self.new_or_old(fn, 'B', 'b')
             out.append(f'{ind}{v} = {self.expr_B(fn, ed - 1)}')
